@@ -508,3 +508,93 @@ def fill_in_uses_global_terminals(prog: Program, rep, RID: str) -> int:
                       "start is really needed (a(5) -> b(8) -> c(8) with additional_starts=['b']) the flow is infeasible and the fill-in is skipped silently, although the "
                       "constructor demands it for additional starts / ends", f.loc(adds[0]))
     return 1
+
+
+# ---------------------------------------------------------------------------------------------------------------------------
+# whole constraints as safe sequences: only under full coverage
+# ---------------------------------------------------------------------------------------------------------------------------
+
+def _eval_small(e: ast.AST, env: Dict[str, object]):
+    """value of a small test over `self.<attr>` (from env) and constants; raises KeyError / ValueError on anything else"""
+    if isinstance(e, ast.Constant):
+        return e.value
+    if isinstance(e, (ast.List, ast.Tuple, ast.Set)):
+        return [_eval_small(x, env) for x in e.elts]
+    if isinstance(e, ast.Attribute) and isinstance(e.value, ast.Name) and e.value.id == "self":
+        return env[e.attr]
+    if isinstance(e, ast.UnaryOp) and isinstance(e.op, ast.Not):
+        return not _eval_small(e.operand, env)
+    if isinstance(e, ast.BoolOp):
+        vals = [_eval_small(v, env) for v in e.values]
+        return all(vals) if isinstance(e.op, ast.And) else any(vals)
+    if isinstance(e, ast.Compare):
+        left = _eval_small(e.left, env)
+        for op, right in zip(e.ops, e.comparators):
+            r = _eval_small(right, env)
+            if isinstance(op, ast.Eq):
+                ok_ = left == r
+            elif isinstance(op, ast.NotEq):
+                ok_ = left != r
+            elif isinstance(op, ast.Is):
+                ok_ = left is r
+            elif isinstance(op, ast.IsNot):
+                ok_ = left is not r
+            elif isinstance(op, ast.In):
+                ok_ = any(left is x or left == x for x in r)
+            elif isinstance(op, ast.NotIn):
+                ok_ = not any(left is x or left == x for x in r)
+            elif isinstance(op, (ast.Lt, ast.LtE, ast.Gt, ast.GtE)):
+                if left is None or r is None:
+                    raise ValueError("ordering with None")
+                ok_ = {ast.Lt: left < r, ast.LtE: left <= r, ast.Gt: left > r, ast.GtE: left >= r}[type(op)]
+            else:
+                raise ValueError("operator")
+            if not ok_:
+                return False
+            left = r
+        return True
+    raise ValueError(f"cannot evaluate {norm(e)}")
+
+
+def constraints_as_safe_sequences_rule(prog: Program, rep, RID: str) -> int:
+    """A subpath constraint is a safe sequence - contained as a whole in one path of every solution - only if it has to be covered in full,
+    in both metrics: coverage == 1 and coverage_length in (1, None).  The call that computes safe sequences from the constraints is evaluated
+    under every combination of full / partial coverage: it may be reached only when both are full."""
+    ci = prog.cls("AbstractPathModelDAG")
+    n = 0
+    for m in ci.methods.values():
+        for c in calls_in(m.node):
+            if not ((dotted(c.func) or "").endswith("safe_sequences")):
+                continue
+            arg = kwarg(c, "edges_or_subpath_constraints_to_cover", 1)
+            if arg is None or norm(arg) != "self.subpath_constraints":
+                continue
+            n += 1
+            key = f"AbstractPathModelDAG.{m.name}:constraints-as-safe-sequences"
+            tests = enclosing_tests(m.node, c)
+            conj = []
+            for t, pol in tests:
+                parts = t.values if (isinstance(t, ast.BoolOp) and isinstance(t.op, ast.And) and pol) else [t]
+                for p in parts:
+                    if "subpath_constraints_coverage" in norm(p):
+                        conj.append((p, pol))
+            bad = None
+            for cov in (1, 0.5):
+                for covlen in (1, None, 0.5):
+                    env = {"subpath_constraints_coverage": cov, "subpath_constraints_coverage_length": covlen}
+                    try:
+                        reached = all(bool(_eval_small(p, env)) == pol for p, pol in conj)
+                    except (KeyError, ValueError) as ex:
+                        raise AnalysisError(f"AbstractPathModelDAG.{m.name}: cannot evaluate the coverage guard of the safe-sequence computation ({ex})")
+                    if reached and not (cov == 1 and covlen in (1, None)):
+                        bad = bad or (cov, covlen)
+            if bad:
+                rep.violation(RID, key, f"safe sequences are computed from the subpath constraints also when subpath_constraints_coverage = {bad[0]} and "
+                              f"subpath_constraints_coverage_length = {bad[1]} (guard: `{' and '.join(('' if pol else 'not ') + norm(p) for p, pol in conj) or 'none'}`): a constraint "
+                              "that only has to be covered in part is not contained as a whole in one path of every solution; used as a safe sequence (fixing, or added as a subpath "
+                              "constraint with optimize_with_safety_as_subpath_constraints) it cuts off the optimum", m.loc(c))
+            else:
+                rep.ok(RID, key, "computed only under full coverage in both metrics (coverage == 1, coverage_length in (1, None))", m.loc(c))
+    if n == 0:
+        raise AnalysisError("AbstractPathModelDAG: the computation of safe sequences from the subpath constraints was not found")
+    return n
